@@ -329,6 +329,28 @@ func execEvent(ls []LintRec, idx []int, t *Target, cfg lint.Configuration) (ev.M
 		recs[k] = r
 		ix[k], cfgs[k], app[k], body[k], bdg[k], called[k], inst[k], obs[k], odg[k], ocl[k], sb[k], sdg[k] = i+1, r.Cfg, r.Applies, r.Body, r.BodyDg, r.Called, r.Instances, r.Obs, r.ObsDg, r.ObsCls, r.SpyBody, r.SpyDg
 	}
+	// the same lints through the deprecated lookup (Registry.ByName -> *lint.Lint): certificate lints of the global registry only
+	dep := make([]int, n)
+	for k, i := range idx {
+		dep[k] = -9
+		if t.Kind == "cert" && ls[i].C != nil {
+			func() {
+				defer func() {
+					if recover() != nil {
+						dep[k] = -1
+					}
+				}()
+				if dl := lint.GlobalRegistry().ByName(ls[i].Name); dl != nil && dl.Name == ls[i].Name {
+					if r := dl.Execute(t.Cert, cfg); r != nil {
+						dep[k] = int(r.Status)
+					} else {
+						dep[k] = -3
+					}
+				}
+			}()
+		}
+	}
+	m["depSt"] = dep
 	m["idx"], m["cfg"], m["applies"], m["body"], m["bodyDg"], m["called"], m["inst"], m["obs"], m["obsDg"], m["obsCls"], m["spyBody"], m["spyDg"] = ix, cfgs, app, body, bdg, called, inst, obs, odg, ocl, sb, sdg
 	return m, recs
 }
